@@ -922,8 +922,9 @@ sexp sexp_read_error (sexp ctx, const char *msg, sexp ir, sexp port) {
   sexp res;
   sexp_gc_var4(sym, name, str, irr);
   sexp_gc_preserve4(ctx, sym, name, str, irr);
-  name = (sexp_port_name(port) ? sexp_port_name(port) : SEXP_FALSE);
-  name = sexp_cons(ctx, name, sexp_make_fixnum(sexp_port_line(port)));
+  /* callers outside the reader (e.g. sexp_div -> sexp_ratio_normalize) pass SEXP_FALSE */
+  name = (sexp_portp(port) && sexp_port_name(port) ? sexp_port_name(port) : SEXP_FALSE);
+  name = sexp_cons(ctx, name, sexp_make_fixnum(sexp_portp(port) ? sexp_port_line(port) : 0));
   str = sexp_c_string(ctx, msg, -1);
   irr = ((sexp_pairp(ir) || sexp_nullp(ir)) ? ir : sexp_list1(ctx, ir));
   res = sexp_make_exception(ctx, sym = sexp_intern(ctx, "read", -1),
@@ -3092,9 +3093,12 @@ sexp sexp_read_number (sexp ctx, sexp in, int base, int exactp) {
         if (real < 0) {
           theta += M_PI;
         }
-        rho = sexp_to_double(ctx, sexp_div(ctx, res, sexp_make_fixnum((sexp_sint_t)round(rho))));
-        sexp_complex_real(den) = sexp_make_flonum(ctx, rho * cos(theta));
-        sexp_complex_imag(den) = sexp_make_flonum(ctx, rho * sin(theta));
+        res = sexp_div(ctx, res, sexp_make_fixnum((sexp_sint_t)round(rho)));
+        if (!sexp_exceptionp(res)) { /* a magnitude below 0.5 rounds to zero */
+          rho = sexp_to_double(ctx, res);
+          sexp_complex_real(den) = sexp_make_flonum(ctx, rho * cos(theta));
+          sexp_complex_imag(den) = sexp_make_flonum(ctx, rho * sin(theta));
+        }
 #endif
       } else {
         res = sexp_make_ratio(ctx, res, sexp_complex_real(den));
